@@ -412,3 +412,44 @@ Definition mutating (o : op) : bool :=
   match o with OpRegister _ _ _ _ | OpRestrict _ | OpRank => true | OpDup | OpXml => false end.
 Definition guarded_step (adopted : bool) (env : option str) (st : state) (o : op) : outcome * bool :=
   if adopted && mutating o then (Fine st RC_EPERM, true) else (step env st o, false).
+
+(* ---------- what hwloc_topology_restrict does to the cpusets ---------- *)
+(* The part of the topology the cpukinds depend on: the root cpuset (= allowed
+   cpuset here) and the NUMA nodes with their os index and cpuset; the nodeset
+   of a PU is the set of nodes whose cpuset contains it.  [topology_restrict]
+   follows the argument checks and the dropped-cpuset / dropped-nodeset
+   computation of hwloc_topology_restrict (None = EINVAL, nothing touched);
+   HWLOC_RESTRICT_FLAG_ADAPT_MISC/IO do not affect cpusets. *)
+Record tsum := TS { t_cpuset : bset; t_nodes : list (N * bset) }.
+
+Definition has_flag (flags f : N) : bool := negb (N.land flags f =? 0)%N.
+Definition RESTRICT_ALL_FLAGS : N :=
+  N.lor HWLOC_RESTRICT_FLAG_REMOVE_CPULESS (N.lor HWLOC_RESTRICT_FLAG_ADAPT_MISC
+    (N.lor HWLOC_RESTRICT_FLAG_ADAPT_IO (N.lor HWLOC_RESTRICT_FLAG_BYNODESET HWLOC_RESTRICT_FLAG_REMOVE_MEMLESS))).
+Definition union_sets (l : list bset) : bset := fold_right bs_union bs_empty l.
+
+Definition topology_restrict (t : tsum) (set : bset) (flags : N) : option tsum :=
+  if negb (N.ldiff flags RESTRICT_ALL_FLAGS =? 0)%N then None
+  else if has_flag flags HWLOC_RESTRICT_FLAG_BYNODESET then
+    if has_flag flags HWLOC_RESTRICT_FLAG_REMOVE_CPULESS then None
+    else if negb (existsb (fun n => mem (fst n) set) (t_nodes t)) then None   (* set misses allowed_nodeset *)
+    else
+      let kept := filter (fun n => mem (fst n) set) (t_nodes t) in
+      if has_flag flags HWLOC_RESTRICT_FLAG_REMOVE_MEMLESS then
+        (* PUs all of whose local NUMA nodes are dropped (or that have none) *)
+        let dropped := bs_diff (t_cpuset t) (union_sets (map snd kept)) in
+        if bs_subset (t_cpuset t) dropped then None
+        else Some (TS (bs_diff (t_cpuset t) dropped) (map (fun n => (fst n, bs_diff (snd n) dropped)) kept))
+      else Some (TS (t_cpuset t) kept)
+  else
+    if has_flag flags HWLOC_RESTRICT_FLAG_REMOVE_MEMLESS then None
+    else if negb (bs_intersects set (t_cpuset t)) then None
+    else
+      let nodes' := map (fun n => (fst n, bs_inter (snd n) set)) (t_nodes t) in
+      if has_flag flags HWLOC_RESTRICT_FLAG_REMOVE_CPULESS then
+        let kept := filter (fun n => negb (bs_is_empty (snd n))) nodes' in
+        match kept with
+        | [] => None                      (* all NUMA nodes would go *)
+        | _ => Some (TS (bs_inter (t_cpuset t) set) kept)
+        end
+      else Some (TS (bs_inter (t_cpuset t) set) nodes').
